@@ -10,7 +10,7 @@
    default values refer to older objects only). *)
 From Coq Require Import ZArith List Bool Arith String.
 From SV Require Import C02.Model C02.Spec C02.Arity C02.ArityTable
-  C02.ProofsCommon C02.ProofsFreeze C02.ProofsTraverse C02.ProofsArity.
+  C02.ProofsCommon C02.ProofsFreeze C02.ProofsTraverse C02.ProofsConverse C02.ProofsArity.
 Import ListNotations.
 
 (* Freeze: for every finite heap (cyclic included), every set of already frozen
@@ -51,6 +51,20 @@ Proof.
   intros h x Hwf Hsp Hx.
   exact (write_total_lemma h code_guards Hwf eq_refl eq_refl (or_intror (or_intror Hsp)) x Hx).
 Qed.
+
+(* ... and exactly: for EVERY heap the interpreter can build and every root, either
+   the detector wv_check -- write_value instrumented with the stack of open
+   structs -- finds a struct entered again while it is still open (a struct
+   reachable from itself) and then printing never ends, whatever the fuel; or it
+   finds none and printing ends within (size+2)^3 nested calls.  This
+   characterises the crashing inputs of the known finding. *)
+Theorem write_value_ends_iff_no_struct_cycle :
+  forall h x, wf_heap h = true -> x < size h ->
+    (wv_check (cube_bound h) h [] [] x = WStructCycle /\
+     forall fuel, write_value code_guards fuel h [] x = OutOfFuel) \/
+    (wv_check (cube_bound h) h [] [] x = WDone /\
+     write_value code_guards (cube_bound h) h [] x = Done tt).
+Proof. intros h x Hwf Hx. exact (write_value_ends_iff_lemma h x Hwf Hx). Qed.
 
 (* ... and the full statement for the repair "Struct.String hands writeValue's path on" *)
 Theorem write_value_total_if_struct_keeps_path :
@@ -116,6 +130,12 @@ Definition example_heap2 : heap :=
 Example plain_struct_premises_hold :
   wf_heap example_heap2 = true /\ structs_plain example_heap2 = true /\ struct_free example_heap2 = false /\
   write_value code_guards (sq_bound example_heap2) example_heap2 [] 3 = Done tt.
+Proof. vm_compute. repeat split. Qed.
+
+Example detector_examples :
+  wv_check (cube_bound struct_cycle_heap) struct_cycle_heap [] [] 0 = WStructCycle /\
+  wv_check (cube_bound example_heap2) example_heap2 [] [] 3 = WDone /\
+  wv_check (cube_bound example_heap) example_heap [] [] 0 = WDone.
 Proof. vm_compute. repeat split. Qed.
 
 Example arity_premises_hold :
